@@ -279,7 +279,7 @@ fn sorted_lines(b: &[u8]) -> Vec<String> {
 }
 
 /// Run `n` cross-check cases; returns (summary, violations with a description of the case, harness disagreements).
-pub fn campaign(seed: u64, n: u64, thorough: bool, workers: usize) -> (XSummary, Vec<(u64, Violation)>, Vec<String>) {
+pub fn campaign(seed: u64, n: u64, thorough: bool, workers: usize, e2_only: bool) -> (XSummary, Vec<(u64, Violation)>, Vec<String>) {
     use std::sync::atomic::{AtomicU64, Ordering};
     use std::sync::{Arc, Mutex};
     let bins = Arc::new(Binaries::locate());
@@ -315,6 +315,17 @@ pub fn campaign(seed: u64, n: u64, thorough: bool, workers: usize) -> (XSummary,
                         continue;
                     }
                 };
+                if e2_only {
+                    let mut a = acc.lock().unwrap();
+                    a.0.runs += 1;
+                    a.0.grace_used += x.grace_used;
+                    a.0.connections += x.connections as u64;
+                    *a.0.by_instances.entry(case.instances.to_string()).or_insert(0) += 1;
+                    for v in &x.violations {
+                        a.1.push((j, v.clone()));
+                    }
+                    continue;
+                }
                 // E1 on the same case (calm schedule) for the fidelity comparison
                 let mut c1 = case.clone();
                 c1.run_flags.retain(|f| f != "--no-timing");
